@@ -16,6 +16,7 @@ import (
 	envoy_cluster "github.com/envoyproxy/go-control-plane/envoy/config/cluster/v3"
 	envoy_core "github.com/envoyproxy/go-control-plane/envoy/config/core/v3"
 	envoy_endpoint "github.com/envoyproxy/go-control-plane/envoy/config/endpoint/v3"
+	envoy_route "github.com/envoyproxy/go-control-plane/envoy/config/route/v3"
 	"github.com/golang/protobuf/ptypes/wrappers"
 	"mosn.io/mosn/istio/istio1106/xds/conv"
 	admin "mosn.io/mosn/pkg/admin/server"
@@ -71,6 +72,7 @@ type Update struct {
 		ConvertUpdateEndpoints([]*envoy_endpoint.ClusterLoadAssignment) error
 		ConvertUpdateClusters([]*envoy_cluster.Cluster)
 		ConvertDeleteClusters([]*envoy_cluster.Cluster)
+		ConvertAddOrUpdateRouters([]*envoy_route.RouteConfiguration)
 	}
 	cl           *peers.XClient
 	ups          []*peers.XUpstream
@@ -310,6 +312,11 @@ func (w *Update) Setup() error {
 		return err
 	}
 	w.cvt = conv.NewConverter()
+	// exploration: an update may be held between building the new host set / balancer and publishing it,
+	// while requests keep arriving (the operations run on their own goroutines; MOSN is up by now)
+	if ch.Chance("params", "arm:x:cluster.update", 2, 3) {
+		s.Armed["x:cluster.update"] = true
+	}
 	w.lisAddr = "127.0.0.1:2045"
 	w.epochs = append(w.epochs, uEpoch{0, 1 << 62, w.cloneModel()})
 
@@ -368,7 +375,7 @@ func (w *Update) nextOp() {
 	w.ops++
 	adapter := cluster.GetClusterMngAdapterInstance()
 	rm := router.GetRoutersMangerInstance()
-	kind := pickFrom(ch, "work", "op", []string{"router.full", "route.add", "route.removeall", "cluster.update", "cluster.updatehosts", "cluster.del", "hosts.update", "hosts.append", "hosts.del", "xds.endpoints", "dump", "dump", "listener.update", "listener.add", "listener.del", "xds.cluster.update", "xds.cluster.del", "invalid"})
+	kind := pickFrom(ch, "work", "op", []string{"router.full", "route.add", "route.removeall", "cluster.update", "cluster.updatehosts", "cluster.del", "hosts.update", "hosts.append", "hosts.del", "xds.endpoints", "dump", "dump", "listener.update", "listener.add", "listener.del", "xds.cluster.update", "xds.cluster.del", "xds.router", "invalid"})
 	var run func()
 	desc := kind
 	m := &w.M
@@ -585,6 +592,48 @@ func (w *Update) nextOp() {
 			}
 			delete(m.Clusters, name) // the cluster discovery service no longer lists it
 		}
+	case "xds.router":
+		// a route configuration delivered by the route discovery service: the same abstract content is
+		// written once as the xDS object and once as the router configuration a user would have written
+		name := pickFrom(ch, "work", "rname", []string{"r0", "r0", "r1"})
+		xr := &envoy_route.RouteConfiguration{Name: name}
+		rc := &v2.RouterConfiguration{}
+		rc.RouterConfigName = name
+		for di, d := range uDomains {
+			if di > 0 && !ch.Bool("work", "vhost") {
+				continue
+			}
+			vname := "xvh-" + strings.Trim(d, "*.")
+			if d == "*" {
+				vname = "xvh-default"
+			}
+			xvh := &envoy_route.VirtualHost{Name: vname, Domains: []string{d}}
+			vh := v2.VirtualHost{Name: vname, Domains: []string{d}}
+			for i, n := 0, ch.Pick("work", "nroutes", 4); i < n; i++ {
+				svc := fmt.Sprintf("svc%d", ch.Pick("work", "svc", 4))
+				cl := pickFrom(ch, "work", "rcluster", uClusters)
+				xvh.Routes = append(xvh.Routes, &envoy_route.Route{
+					Match: &envoy_route.RouteMatch{PathSpecifier: &envoy_route.RouteMatch_Prefix{Prefix: "/"},
+						Headers: []*envoy_route.HeaderMatcher{{Name: "service", HeaderMatchSpecifier: &envoy_route.HeaderMatcher_ExactMatch{ExactMatch: svc}}}},
+					Action: &envoy_route.Route_Route{Route: &envoy_route.RouteAction{ClusterSpecifier: &envoy_route.RouteAction_Cluster{Cluster: cl}}},
+				})
+				r := v2.Router{}
+				r.Match = v2.RouterMatch{Prefix: "/", Headers: []v2.HeaderMatcher{{Name: "service", Value: svc}}}
+				r.Route = v2.RouteAction{RouterActionConfig: v2.RouterActionConfig{ClusterName: cl}}
+				vh.Routers = append(vh.Routers, r)
+			}
+			xr.VirtualHosts = append(xr.VirtualHosts, xvh)
+			rc.VirtualHosts = append(rc.VirtualHosts, vh)
+		}
+		ver := fmt.Sprintf("x%d", ch.Pick("work", "rcfgver", 4))
+		xr.RequestHeadersToAdd = []*envoy_core.HeaderValueOption{{Header: &envoy_core.HeaderValue{Key: "x-cfg", Value: ver}}}
+		xr.ResponseHeadersToAdd = []*envoy_core.HeaderValueOption{{Header: &envoy_core.HeaderValue{Key: "x-rcfg", Value: ver}}}
+		rc.RequestHeadersToAdd = []*v2.HeaderValueOption{{Header: &v2.HeaderValue{Key: "x-cfg", Value: ver}}}
+		rc.ResponseHeadersToAdd = []*v2.HeaderValueOption{{Header: &v2.HeaderValue{Key: "x-rcfg", Value: ver}}}
+		desc += fmt.Sprintf(" %s %d virtual hosts", name, len(xr.VirtualHosts))
+		run = func() { w.cvt.ConvertAddOrUpdateRouters([]*envoy_route.RouteConfiguration{xr}) }
+		m.Routers[name] = string(mustJSON(rc))
+		w.Stats["xds_router_updates"]++
 	case "dump":
 		run = func() { w.dumpAll() }
 	default: // invalid / no-op operations: nothing may change
